@@ -173,3 +173,35 @@ Example batch_compact_example :
   good_from 47 1 l /\ compact_if_many l = [mkEnt 48 3 1 8; mkEnt 0 0 2 9; mkEnt 0 0 3 8] /\
   restore_if_many (compact_if_many l) = l.
 Proof. vm_compute. repeat split; auto; discriminate. Qed.
+
+(* REFINEMENT for the batched entry format: after every contract-abiding run every
+   contract-abiding observation of the faithful batched-format db model (entry batches of
+   the regenerated batch size, merge of the first partial batch with the cached / stored
+   last batch, compacted batch fields, cache included) equals the logical log's. *)
+Theorem batched_refines : forall l q,
+  wf_ops spec_init (muts l) = true ->
+  spec_wf_query (spec_run spec_init (muts l)) q = true ->
+  exists d, batched_prun l = Some d /\
+            batched_observe d q = spec_answer (spec_run spec_init (muts l)) q.
+Proof. exact batched_refines_proved. Qed.
+Print Assumptions batched_refines.
+
+Theorem batched_no_panic : forall l, wf_ops spec_init (muts l) = true -> batched_prun l <> None.
+Proof. exact batched_no_panic_proved. Qed.
+Print Assumptions batched_no_panic.
+
+(* non-vacuity: entries straddling the batch size (46..50), an overwrite from 48 with a
+   shorter suffix of a newer term, reopen, then a query across the batch boundary *)
+Definition ex_b (i t g : N) : entry := mkEnt i t g 16.
+Definition ex_brun : list pop :=
+  [ PMut (OSave [mkUp ex_n1 (mkSt 1 1 0) (mkSs 45 1 7) [ex_b 46 1 1; ex_b 47 1 2; ex_b 48 1 3; ex_b 49 1 4; ex_b 50 1 5]]);
+    PMut (OSave [mkUp ex_n1 (mkSt 2 1 46) (mkSs 0 0 0) [ex_b 48 2 6]]);
+    PMut OReopen;
+    PMut (OSave [mkUp ex_n1 (mkSt 0 0 0) (mkSs 0 0 0) [ex_b 49 2 7]]) ].
+Example ex_brun_wf :
+  wf_ops spec_init (muts ex_brun) = true /\
+  match batched_prun ex_brun with
+  | Some d => b_iterate d ex_n1 46 60 100000 = RIter [ex_b 46 1 1; ex_b 47 1 2; ex_b 48 2 6; ex_b 49 2 7] 576
+  | None => False
+  end.
+Proof. vm_compute. split; reflexivity. Qed.
